@@ -294,7 +294,8 @@ def outertrig(ctx):
 
 
 # --------------------------------------------------------------------------- sqrt of a Study number
-@rule("C19.sqrt", props=["C19", "C13"], min_instances=2, mutants=[
+@rule("C19.sqrt", props=["C19", "C13", "C08"], min_instances=3, mutants=[
+    ("no case for the multivector that stores no blade", ("codegen", "    if not len(x):\n        return {}  # The square root of the multivector that stores no blade is that multivector.\n", "")),
     ("Study norm from x * ~x", ("codegen", "        normS = (a * a - bI * bI).e", "        normS = (x * ~x).e")),
     ("half-angle factor dropped", ("codegen", "        cp = f'(0.5 * ({str(a.e)} + ({str(normS)})**0.5)) ** 0.5'", "        cp = f'(({str(a.e)} + ({str(normS)})**0.5)) ** 0.5'")),
     ("the Study norm is written into the formula without brackets of its own", ("codegen", "        cp = f'(0.5 * ({str(a.e)} + ({str(normS)})**0.5)) ** 0.5'", "        cp = f'(0.5 * ({str(a.e)} + {str(normS)}**0.5)) ** 0.5'")),
@@ -310,7 +311,24 @@ def sqrt_rule(ctx):
     x = T.var("x")
     # scalar cell
     it = tree_interp(repo, 3)
-    it.tvar_facts = {"grades": {"x": (0,)}}
+    # a multivector that stores no blade: its square root is that multivector (nothing to compute, nothing to divide by)
+    it0 = tree_interp(repo, 3)
+    it0.tvar_facts = {"grades": {"x": ()}, "__len__": {"x": 0}}
+    it0.t_truth = lambda t: bool(t.terms)
+    c = f"{q}#no stored blade"
+    try:
+        out0 = it0.run(q, [x])
+    except NoValue as exc:
+        raise Unknown(c, str(exc), fn)
+    if out0 == ("return", {}):
+        ctx.ok(c, fn)
+    elif out0[0] == "return" and isinstance(out0[1], Obj) and out0[1].kind == "LambdifyInput":
+        ctx.violation(c, "sqrt of a multivector that stores no blade goes through the Study-number formulas: they divide by the square root "
+                         "of its (absent) scalar part, the generated code contains 0.5/0 evaluated at generation time (`nan`) and raises NameError, "
+                         "while the same element stored with explicit zeros gives 0", fn)
+    else:
+        raise Unknown(c, f"gives {out0!r}", fn)
+    it.tvar_facts = {"grades": {"x": (0,)}, "__len__": {"x": 1}}
     it.t_truth = lambda t: bool(t.terms)
     c = f"{q}#scalar"
     try:
@@ -337,7 +355,7 @@ def sqrt_rule(ctx):
         raise Unknown(c, f"sqrt of a scalar gives {out!r}", fn)
     # Study-number cell
     it = tree_interp(repo, 3)
-    it.tvar_facts = {"grades": {"x": (0, 2)}}
+    it.tvar_facts = {"grades": {"x": (0, 2)}, "__len__": {"x": 4}}
     it.t_truth = lambda t: bool(t.terms)
     c = f"{q}#study-number"
     try:
